@@ -333,6 +333,76 @@ plan('C18', jobs=_c18,
      design_ref='DESIGN.md section 3, C18')
 
 
+def _c14(tier):
+    jobs = [
+        J('C14', 'dbg/u4', 'dbg', 'eng_eq', '--random %d' % q(tier, 4000, 400000), 8, 1, exh=True),
+        J('C14', 'rel/u4', 'rel', 'eng_eq', '--random %d' % q(tier, 20000, 2000000), 8, 1, exh=True),
+    ]
+    if tier == 'thorough':
+        jobs.append(J('C14', 'miri/u3', 'miri', 'eng_eq', '--tiny', 8, 1, light=True, timeout=7200))
+    return jobs
+
+
+plan('C14', jobs=_c14,
+     rule='A case is one ordered pair (a, b) of containers, compared as a == b and b == a. Map states: ALL ordered arrangements of all subsets of a 4-class universe with 2 possible values per class (633 states when the capacity is >= 4); set states: all 65 layouts. Every ordered pair of states is compared for the capacity pairs (4,4) (4,8) (8,4) (2,4) (4,3) (0,4) (4,0) (0,0) (1,1) (2,2) (3,3) for maps and (4,4) (4,8) (8,4) (2,4) (0,3) (1,1) (2,2) (3,3) for sets, with tracked and Copy elements; so pairs differing only in one value, only in one key, only in length, and equal contents in different slot orders all occur by construction (counted per kind in coverage_matrix). Random pairs reached by two different operation histories on top. Non-trivial: at least one operand non-empty.',
+     required=['equal:same-order', 'equal:different-order', 'unequal:one-value', 'unequal:one-key', 'unequal:length', 'unequal:values', 'unequal:keys',
+               'set:equal:different-order', 'set:unequal:one-key', 'set:unequal:length', 'histories:equal', 'histories:unequal'],
+     exhaustive_subspace='all ordered pairs of (slot order x values) states over a 4-class universe with 2 values per class, for the listed capacity pairs, Map and Set',
+     title='extensional equality',
+     technique='runtime monitoring: extensional-equality oracle evaluated on a bounded-exhaustive space of ordered container pairs (both directions, reflexivity, operand fingerprints and ledger event counts before/after)',
+     level_text='Exploration with an exhaustive sub-space: every ordered pair of small containers (all slot orders, two values per key, capacity pairs incl. N != M and N = 0) is compared both ways against the model\'s extensional equality; reflexivity is checked on every state; operands must be bit-for-bit unchanged and == must construct, clone or destroy nothing.',
+     level_note='Universe of 4 classes x 2 values is exhaustive; larger containers are sampled through random histories. Value equality is the value type\'s own == (no NaN-like values).',
+     design_ref='DESIGN.md section 3, C14')
+
+
+def _c16(tier):
+    jobs = [
+        J('C16', 'dbg/u4', 'dbg', 'eng_bulk', '--maxlen 6 --random %d' % q(tier, 3000, 300000), 8, 1, exh=True),
+        J('C16', 'rel/u4', 'rel', 'eng_bulk', '--maxlen %d --random %d' % (q(tier, 6, 7), q(tier, 9000, 1500000)), 8, 1, exh=True),
+    ]
+    if tier == 'thorough':
+        jobs.append(J('C16', 'miri/u3', 'miri', 'eng_bulk', '--tiny', 8, 1, light=True, timeout=7200))
+    return jobs
+
+
+plan('C16', jobs=_c16,
+     rule='A case is one item sequence through one bulk entry point (Map collect, Map From<[_;N]>, Set collect, Set From<[_;N]>, Set Extend<T> onto an empty / partial / full set, Set Extend<&T>). Sequences: ALL sequences of length 0..=6 (thorough 7) over a 4-class universe for N in {0,1,2,3,4} (every repetition pattern; lengths below, at and above N; fewer, exactly and more than N distinct keys), random sequences of length up to 3N+2 for N in {5,8,16}. Non-trivial: the sequence is non-empty; distinct by (N, sequence, start state).',
+     required=['Map::from_iter:plain', 'Map::from_iter:repeats', 'Map::from_iter:longer-than-N-but-fits', 'Map::from_iter:overflows', 'Map::from(array):repeats',
+               'Set::from_iter:longer-than-N-but-fits', 'Set::from_iter:overflows', 'Set::from(array):repeats', 'Set::extend:repeats:onto-partial',
+               'Set::extend:overflows:onto-partial', 'Set::extend:longer-than-N-but-fits:onto-full', 'Set::extend(&T):fits', 'Set::extend(&T):overflows', 'random-sequence'],
+     exhaustive_subspace='all item sequences of length 0..=6 over 4 classes for N in 0..=4, every bulk entry point',
+     title='bulk construction',
+     technique='runtime monitoring: fold-of-single-inserts model with stored-key tags, literal twin container filled by single inserts, recording source iterator (pull log), ledger balance; bounded-exhaustive sequence space',
+     level_text='Exploration with an exhaustive sub-space: every short item sequence is pushed through every bulk entry point; the result must equal the fold of single inserts (contents, first key object kept, last value wins), a literally one-by-one filled twin, panic exactly at the first new key beyond N distinct ones (and not for repeats), the source must be pulled exactly once per item front to back with a single final None (and not beyond the overflowing item), and every item object must end up stored or destroyed exactly once.',
+     level_note='Sequences longer than 7 and N > 4 are sampled.',
+     design_ref='DESIGN.md section 3, C16')
+
+
+def _c11(tier):
+    jobs = [
+        J('C11', 'dbg/u4', 'dbg', 'eng_entry', '--random %d' % q(tier, 20000, 3000000), 8, 1, exh=True),
+        J('C11', 'rel/u4', 'rel', 'eng_entry', '--random %d' % q(tier, 60000, 10000000), 8, 1, exh=True),
+        J('C11', 'miri/u3', 'miri', 'eng_entry', '--tiny', 16, 1, light=True, timeout=q(tier, 1500, 7200)),
+    ]
+    if tier == 'thorough':
+        jobs.append(J('C11', 'mirirel/u3', 'mirirel', 'eng_entry', '--tiny', 16, 1, light=True, timeout=7200))
+    return jobs
+
+
+plan('C11', jobs=_c11,
+     rule='A case is (map state, key, entry method chain). States: ALL slot layouts over a 4-class universe for N in {0,1,2,3,4,8}; keys: every stored key (so first / middle / last slot) and an absent key; chains: 22 enumerated method chains of length 1..3 covering key, or_insert, or_insert_with, or_insert_with_key, or_default, and_modify (once and twice), every OccupiedEntry method (key/get/get_mut/insert/remove/remove_entry/into_mut) and every VacantEntry method (key/into_key/insert), alone and combined. Twin A runs the chain, twin B the direct operations; random larger states (N = 8, 16) on top. Every case is non-trivial; distinct by (N, slot order, key, chain).',
+     required=['or_insert:miss:partial', 'or_insert:hit-last:full', 'or_insert_with:hit-first', 'or_insert_with_key:miss', 'or_default:miss', 'and_modify.or_insert:hit-middle',
+               'occ.insert|vac.insert.write:hit-last', 'occ.remove|vac.key:hit-first', 'occ.remove_entry|vac.into_key:hit-middle', 'occ.into_mut.write|vac.insert:miss:partial',
+               'both-panic(full map, vacant insert)', 'random-state'],
+     exhaustive_subspace='all slot layouts over a 4-class universe for N in {0,1,2,3,4,8} x every present key and one absent key x 22 entry method chains',
+     assumptions=NATIVE_ASSUME + SAN_ASSUME,
+     title='entry API',
+     technique='runtime monitoring: twin-container monitor (entry chain vs the direct operations on an identically built map), closure-call counters, returned-reference address monitor, ledger identity of all other entries; bounded-exhaustive (state x key x chain) space; Miri for the unchecked slot access of OccupiedEntry',
+     level_text='Exploration with an exhaustive sub-space: every enumerated entry method chain is run on every small map state and key next to the direct operations on a twin; observations (Occupied/Vacant, returned values and key objects, closure invocation counts, panic on a full map), the resulting dictionaries incl. stored-key identity, the address of returned references versus get_mut, and the identity of every other entry must agree.',
+     level_note='Chains longer than three calls are not enumerated. Trusted: the hand-written direct-operation equivalents in the harness.',
+     design_ref='DESIGN.md section 3, C11')
+
+
 def claimed():
     return sorted(PLANS)
 
